@@ -349,6 +349,17 @@ let handle (r : reader) : unit =
       out_s "OK";
       out_s (" " ^ string_of_int (List.length out));
       List.iter (fun ((a, b), s) -> out_n a; out_n b; out_ranges s) out
+  | "R2DOP" ->
+      (* R2DOP <or|and|minus> kA (ta tb <ranges>)* kB (ta tb <ranges>)*  -> the range-2D binary operation as
+         the code performs it (Model/Merge2D.v merge2): n (ta tb <ranges>)* *)
+      let o = next r in
+      let rd r = next_list r (fun r -> let a = next_n r in let b = next_n r in let s = next_ranges r in ((a, b), s)) in
+      let a = rd r in
+      let b = rd r in
+      let out = (match o with "or" -> merge2 op_union a b | "and" -> merge2 op_inter a b | _ -> merge2 op_diff a b) in
+      out_s "OK";
+      out_s (" " ^ string_of_int (List.length out));
+      List.iter (fun ((x, y), s) -> out_n x; out_n y; out_ranges s) out
   | "CANON" ->
       let l = next_ranges r in
       out_s "OK";
